@@ -7,7 +7,10 @@ import verif
 import outcommon as oc
 
 INVS = ["C10_OneCloseTag", "C10_NothingAfterClose", "C10_ClosedIffTag", "C10_SendersRefused",
-        "C10_BothClosedAfterServe", "C05_Contiguous", "C05_NoStrayWrites", "C05_WritesUnderLock"]
+        "C10_BothClosedAfterServe", "C10_DeadlineKept", "C05_Contiguous", "C05_NoStrayWrites", "C05_WritesUnderLock"]
+
+
+DEVS = [("WriteAfterClose", "C10_NothingAfterClose"), ("CloseTwice", "C10_OneCloseTag"), ("TxDisarmsDeadline", "C10_DeadlineKept")]
 
 
 def run(ctx, focus="close"):
@@ -16,6 +19,12 @@ def run(ctx, focus="close"):
     # ~8 M states; three processes do not finish in minutes and are left to the schedule exploration)
     mc = ctx.model_check("MCOutput", oc.MC_CFG % ({"procs": '{"a", "s"}', "programs": "ProgramsQuick", "scripts": "PeerScriptsQuick"} if quick
                                                  else {"procs": '{"a", "s"}', "programs": "ProgramsMC", "scripts": "PeerScriptsMC"}), INVS, timeout=2400)
+    # non-vacuity: each named deviation of the specification must break the property it is meant for
+    for dev, prop in DEVS:
+        bad = ctx.tlc("MCOutput", (oc.MC_CFG % {"procs": '{"a", "s"}', "programs": "ProgramsQuick", "scripts": "PeerScriptsQuick"}).replace(
+            "Dev = {}", 'Dev = {"%s"}' % dev), name="MCOutput_" + dev, timeout=900)
+        if bad.rc == 0 or prop not in bad.out:
+            raise verif.Undecided("design check is vacuous: deviation %s does not break %s" % (dev, prop))
     if ctx.replay:
         case = json.load(open(ctx.replay))["case"]
         scen = [case["scenario"]]
@@ -42,7 +51,7 @@ def run(ctx, focus="close"):
         "traces_validated_against_impl": summ["traces"], "schedules_run": summ["evaluations"],
         "scenarios": len(scen), "trace_events": summ["events"], "trace_states": r.distinct,
         "preemption_bound": 1 if quick else 2, "rejected": len(rej),
-        "binding_selftest_mutants_rejected": nself,
+        "binding_selftest_mutants_rejected": nself, "deviations_shown_to_break_properties": len(DEVS),
         "samples": summ["samples"][:2],
         "rule": "scenarios = programs of Close / transmit calls (all entry points) for 1-3 goroutines, optionally a served session with a scripted peer (stanza, handler reply, handler error, stream error, close); schedules = depth-first enumeration of gate-level interleavings of the real code with a pre-emption bound; a trace is distinct if its event sequence differs",
     }, assumptions=["gate granularity: goroutines are interleaved at verifYield hooks, transport reads/writes and Go blocking primitives, not at every instruction",
